@@ -241,11 +241,26 @@ func c18(c *Ctx) {
 						continue
 					}
 					fp := extractOf(ci.(*ssa.Call), 0)
+					// the file value itself, or its reloads when it lives in a cell (a deferred closure captures it)
+					vals := []ssa.Value{fp}
 					for _, ref := range *fp.Referrers() {
-						if mi, ok := ref.(*ssa.MakeInterface); ok {
-							for _, r2 := range *mi.Referrers() {
-								if call, ok := r2.(*ssa.Call); ok && call.Call.StaticCallee() != nil && L[call.Call.StaticCallee()] {
-									okOpen = true
+						if st, ok := ref.(*ssa.Store); ok && st.Val == ssa.Value(fp) {
+							if al, ok := st.Addr.(*ssa.Alloc); ok {
+								for _, r2 := range *al.Referrers() {
+									if u, ok := r2.(*ssa.UnOp); ok && u.Op == token.MUL {
+										vals = append(vals, u)
+									}
+								}
+							}
+						}
+					}
+					for _, fv := range vals {
+						for _, ref := range *fv.Referrers() {
+							if mi, ok := ref.(*ssa.MakeInterface); ok {
+								for _, r2 := range *mi.Referrers() {
+									if call, ok := r2.(*ssa.Call); ok && call.Call.StaticCallee() != nil && L[call.Call.StaticCallee()] {
+										okOpen = true
+									}
 								}
 							}
 						}
